@@ -3,6 +3,7 @@ import pathlib
 import re
 import shutil
 import stat
+import sys
 from typing import List
 
 from conductor.context import Context
@@ -38,24 +39,50 @@ def register_command(subparsers):
     parser.set_defaults(func=main)
 
 
-def _remove_output_dir(path: pathlib.Path) -> None:
+def _remove_output_dir(path: pathlib.Path) -> List[str]:
     """
     Removes a task output directory. The task may have made parts of its output
     read-only (e.g., a package cache); removing an entry of a directory that is
     not writable fails. When that happens we make the directory accessible to
     ourselves and try again, instead of silently leaving the output behind.
-    """
 
-    def retry(func, failed_path, _exc_info):
-        os.chmod(os.path.dirname(failed_path), stat.S_IRWXU)
-        if func in (os.rmdir, os.unlink, os.remove):
-            func(failed_path)
-        else:
-            # The directory itself could not be listed or opened.
-            os.chmod(failed_path, stat.S_IRWXU)
-            shutil.rmtree(failed_path, onerror=retry)
+    Returns a description of each part of the output that could not be removed
+    (e.g., files that belong to another user).
+    """
+    root = str(path)
+    failures: List[str] = []
+    retried = set()
+
+    def make_accessible(dir_path):
+        # Only adds permissions for ourselves, only inside the output directory
+        # being removed, and never through a symbolic link.
+        info = os.lstat(dir_path)
+        if stat.S_ISDIR(info.st_mode):
+            os.chmod(dir_path, stat.S_IMODE(info.st_mode) | stat.S_IRWXU)
+
+    def retry(func, failed_path, exc_info):
+        failed_path = str(failed_path)
+        if (func, failed_path) in retried:
+            failures.append("{}: {}".format(failed_path, exc_info[1]))
+            return
+        retried.add((func, failed_path))
+        try:
+            if failed_path != root:
+                make_accessible(os.path.dirname(failed_path))
+            if func in (os.rmdir, os.unlink, os.remove):
+                func(failed_path)
+            else:
+                # The directory itself could not be listed or opened.
+                make_accessible(failed_path)
+                shutil.rmtree(failed_path, onerror=retry)
+        except FileNotFoundError:
+            # Already gone (removed by the retry of an enclosing directory).
+            pass
+        except OSError as ex:
+            failures.append("{}: {}".format(failed_path, ex))
 
     shutil.rmtree(path, onerror=retry)
+    return failures
 
 
 @cli_command
@@ -70,6 +97,7 @@ def main(args):
     cwd = pathlib.Path.cwd()
     assert output_path.is_absolute()
     stack = [output_path]
+    failures: List[str] = []
     while len(stack) > 0:
         curr_path = stack.pop()
         to_delete: List[pathlib.Path] = []
@@ -102,4 +130,10 @@ def main(args):
             for exp_path in to_delete:
                 if args.verbose:
                     print("Deleting", os.path.relpath(exp_path, cwd))
-                _remove_output_dir(exp_path)
+                failures.extend(_remove_output_dir(exp_path))
+
+    if len(failures) > 0:
+        # The other failed outputs have been removed; report what is left.
+        for failure in failures:
+            print("Could not remove", failure, file=sys.stderr)
+        sys.exit(1)
